@@ -119,7 +119,14 @@ func c14For(c *Ctx, pp string) {
 			if call, okc := in.(*ssa.Call); okc {
 				if f := call.Call.StaticCallee(); f != nil && inModule(f) {
 					for ai, a := range call.Call.Args {
-						if strings.HasSuffix(path(a), ".signal") && storesParamToField(f, ai, "signal") {
+						// the signal of the task RefRun was called with (its parameter), not of the fresh task
+						callerSig := false
+						for _, prm := range rr.Params {
+							if path(a) == prm.Name()+".signal" && strings.HasSuffix(prm.Type().String(), "Task") {
+								callerSig = true
+							}
+						}
+						if callerSig && storesParamToField(f, ai, "signal") {
 							ok = true
 						}
 					}
